@@ -199,6 +199,12 @@ def run(ctx):
                    env={"VERIF_IN": inp, "VERIF_C08_CONCS": 2 if q else 4, "VERIF_FLOOD_IN": flood_inp,
                         "VERIF_C08_FLOOD_SIZES": flood_sizes, "VERIF_C08_FLOOD_VIA_AUTH": 2048 if q else 8192})
     lib.collect_go(ctx, g)
+    # a presentation is not an instant at the dispatcher: slow first packets stalled across a clean-up (virtual clock)
+    slow = lib.run_go(ctx, "server", "TestVerifC08SlowPacket", tag="slow_packet", timeout=900)
+    lib.collect_go(ctx, slow)
+    if slow["stats"].get("slow_first_not_accepted", 0):
+        raise lib.Inconclusive("slow-packet stage: genuine handshakes were not accepted: %s" % slow.get("notes", [])[:2])
+    ctx.log("slow first packets stalled across a clean-up: %d scenarios, %d violations" % (slow["stats"].get("slow_packet_scenarios", 0), len(slow.get("violations", []))))
     st = stress_f.result()
     if st.get("_died"):
         # a broken tree can take the process down (the Go runtime aborts on unsynchronised map writes);
